@@ -31,7 +31,7 @@ add("a1_nvs_step", "msgpack",
 add("a1_nvs_step_24", "msgpack", desc="A1 with a 24-byte window (fixext16 complete)",
     bounds="input any prefix of 24 symbolic bytes; depth_limit any usize", functions=A_FUN,
     covers=["A1 leaf with payload", "A1 map with children"], tier="thorough",
-    props=["C04", "C18"], timeout=1800, mem_gb=12, assumptions=A_ASM, replay="msgpack", best_effort=True)
+    props=["C04", "C18"], timeout=1800, mem_gb=12, assumptions=A_ASM, replay="msgpack")
 add("a2_seq_step", "msgpack",
     desc="total_seq_size: element k sized on exactly the bytes after elements 0..k with depth_limit-1; total = sum; Truncated iff slice exhausted early; loop bounded by slice length, not by the declared count",
     bounds="input <= 8 B; count any u32; depth_limit any usize >= 1; element sizes any 1..=rest",
@@ -39,7 +39,7 @@ add("a2_seq_step", "msgpack",
     props=["C04", "C18", "C02", "C03"], timeout=600, mem_gb=8, assumptions=A_ASM, replay="msgpack")
 add("a2_seq_step_16", "msgpack", desc="A2 with input <= 16 B", bounds="input <= 16 B; count any u32", functions=A_FUN,
     covers=["A2 three elements fill the slice"], tier="thorough", props=["C04", "C18"], timeout=1800, mem_gb=12,
-    assumptions=A_ASM, replay="msgpack", best_effort=True)
+    assumptions=A_ASM, replay="msgpack")
 add("a3_map_step", "msgpack",
     desc="total_map_size against the contract of next_value_size only (however the implementation walks the entries): 2 * pairs values are sized, each on exactly the bytes after the earlier ones and one level deeper than the map; size = sum; an entry's error is propagated; Truncated exactly when the bytes run out early; a huge declared count does not loop",
     bounds="input <= 8 B; pairs any u32; depth any usize >= 1", functions=A_FUN,
